@@ -12,7 +12,7 @@ TOL = {"rel_scale": 1e-10}
 RULE = ("N in 1..8; omega, delta real of any sign incl. zeros; phases all-zero / some-zero / none-zero; symmetric U of "
         "any sign with zeros; 0-6 arbitrary complex 2x2 jump operators; arbitrary complex vectors and Hermitian "
         "matrices (unnormalised); oracles: dense H@v (numpy kron), dense Lindblad generator -i[H,rho] + sum(L rho Ld - "
-        "1/2{LdL,rho}) against -i*(Lindbladian @ rho), <psi|H|psi>, Tr(H rho), matmul_2x2_with_batched(A,X) == A@X on "
+        "1/2{LdL,rho}) against -i*(Lindbladian @ rho), <psi|H|psi>, Tr(H rho), matmul_2x2_with_batched(A,X) == A@X (A with zero / real / imaginary / complex entries) on "
         "CPU tensors for every qubit position; non-trivial = N>=2 with non-zero U and drive; distinct = case hash")
 ASSUMPTIONS = ["no GPU in the sandbox: the batched kernel is exercised on CPU tensors only"]
 
@@ -110,7 +110,15 @@ def check_case(case) -> Result:
     if abs(complex(eL) - np.trace(H @ rho1).real) > tol * scaleH * np.abs(rho1).sum():
         r.fail("lindbladian_expect", f"{complex(eL)} vs {np.trace(H @ rho1)}")
     # batched 2x2 kernel vs plain matmul, for every qubit position of a matrix-shaped operand
-    A = rng.normal(size=(2, 2)) + 1j * rng.normal(size=(2, 2))
+    # A: entries that are zero / purely real / purely imaginary / complex (the local operators the kernel is used with are
+    # structured: sigma matrices, projectors, and the effective single-atom term whose diagonal is -i/2 sum L^dagger L)
+    A = np.zeros((2, 2), dtype=complex)
+    for i_ in range(2):
+        for j_ in range(2):
+            kind_ = rng.integers(0, 4)
+            A[i_, j_] = [0.0, rng.normal(), 1j * rng.normal(), rng.normal() + 1j * rng.normal()][kind_]
+    if not A.any():
+        A[0, 1] = 1j
     for q in range(n):
         X = t(rho).view(2**q, 2, -1)
         a = cut(matmul_2x2_with_batched, t(A), X).numpy()
